@@ -6,6 +6,25 @@ import lib
 X_RE = re.compile(r" \(x (?:\([^()]*\) ?)*\)")
 
 
+K_RE = re.compile(r" \(k(?: \([0-9 ]*\))*\)")
+
+
+def strip_known(line):
+    """Removes the model-only `(k (sw class ...) ...)` element from a model.out line."""
+    return K_RE.sub("", line)
+
+
+def known_of(line):
+    """-> {switch set: [class numbers]}"""
+    m = K_RE.search(line)
+    out = {}
+    if m:
+        for grp in re.findall(r"\(([0-9 ]+)\)", m.group(0)):
+            nums = [int(x) for x in grp.split()]
+            out[nums[0]] = nums[1:]
+    return out
+
+
 def strip_extra(line):
     """Removes the crate-only `(x ...)` element from an impl.out line."""
     return X_RE.sub("", line)
@@ -20,6 +39,35 @@ def extra_of(line):
     return out
 
 
+def lines_agree(a, b):
+    """Structural comparison for model lines with order-dependent alternatives:
+    `(res_alt N complete|partial (res N S1) (res N S2) ...)` matches `(res N Si)` for some i;
+    a `partial` alternative list that does not contain the crate's value is not a
+    disagreement (the enumeration of hash orders was cut), it is counted as not compared
+    by returning None."""
+    if "_alt " not in b:
+        return False
+    try:
+        xa = lib.parse_sexp(a)
+        xb = lib.parse_sexp(b)
+    except Exception:
+        return False
+    if len(xa) != len(xb):
+        return False
+    verdict = True
+    for ea, eb in zip(xa, xb):
+        if ea == eb:
+            continue
+        if isinstance(eb, list) and eb and eb[0] in ("res_alt", "reads_alt"):
+            if ea in eb[3:]:
+                continue
+            if eb[2] == "partial":
+                verdict = None
+                continue
+        return False
+    return verdict
+
+
 def compare(ck, cases, impl, model, layer, theorem_hint, direct_failed_ids=(), max_report=3):
     """Line diff of crate vs model.  A disagreement on a case that also fails the direct
     property test is already reported there; any other disagreement breaks the tie between
@@ -31,7 +79,7 @@ def compare(ck, cases, impl, model, layer, theorem_hint, direct_failed_ids=(), m
     for c in cases:
         cid = c["id"]
         a = strip_extra(impl[cid])
-        b = model[cid]
+        b = strip_known(model[cid])
         if b.endswith(" unmodelled)") or " miss " in b[:40] or b.endswith(" skip)") or "harness_error" in a:
             unmodelled += 1
             if " miss " in b[:40]:
@@ -40,7 +88,11 @@ def compare(ck, cases, impl, model, layer, theorem_hint, direct_failed_ids=(), m
         if "runner_error" in b:
             dis.append((c, a, b))
             continue
-        if a == b:
+        ag = True if a == b else lines_agree(a, b)
+        if ag is None:
+            unmodelled += 1
+            ck.count("hash_order_enumeration_cut")
+        elif ag:
             agree += 1
         else:
             dis.append((c, a, b))
